@@ -278,3 +278,40 @@ func PtsTokens(pts []P2) string {
 	}
 	return sb.String()
 }
+
+// OverlappingEdges reports whether two edges of the given contours (of one or several paths)
+// overlap collinearly over a positive length (coincident contours, a contour running back over its
+// own edge, zero-area spikes). Exact for small-integer coordinates; used only to NAME failure classes.
+func OverlappingEdges(css ...[][]P2) bool {
+	type edge struct{ a, b P2 }
+	var es []edge
+	for _, cs := range css {
+		for _, c := range cs {
+			for i := range c {
+				a, b := c[i], c[(i+1)%len(c)]
+				if a != b {
+					es = append(es, edge{a, b})
+				}
+			}
+		}
+	}
+	for i := range es {
+		for j := i + 1; j < len(es); j++ {
+			e, f := es[i], es[j]
+			d := e.b.Sub(e.a)
+			if d.Cross(f.a.Sub(e.a)) != 0 || d.Cross(f.b.Sub(e.a)) != 0 {
+				continue
+			}
+			// collinear: compare parameter ranges along d
+			l2 := d.Dot(d)
+			t0, t1 := f.a.Sub(e.a).Dot(d)/l2, f.b.Sub(e.a).Dot(d)/l2
+			if t0 > t1 {
+				t0, t1 = t1, t0
+			}
+			if math.Min(t1, 1)-math.Max(t0, 0) > 0 {
+				return true
+			}
+		}
+	}
+	return false
+}
